@@ -255,9 +255,11 @@ func lexCommentLine(l *lexer) stateFn {
 	l.pos += Pos(len(leftComment))
 	i := strings.Index(l.input[l.pos:], "\n")
 	if i < 0 {
-		return l.errorf("unclosed comment")
+		// A line comment on the last line ends with the input
+		l.pos = Pos(len(l.input))
+	} else {
+		l.pos += Pos(i + 1)
 	}
-	l.pos += Pos(i + 1)
 	l.ignore()
 	return lexStmt
 }
